@@ -29,13 +29,15 @@ PLAN = {
                   ("rt_len3_small", dict(mode="roundtrip", maxb=3, tp="MCTargets2", sp="MCSenders1", ty="MCTypes1", dp="MCData1")),
                   ("rt_len3_registered_type", dict(mode="roundtrip", maxb=3, tp="MCTargets2", sp="MCSenders1", ty="MCTypesReg", dp="MCData")),
                   ("rt_len2_big_payloads", dict(mode="roundtrip", maxb=2, tp="MCTargets2", sp="MCSenders1", ty="MCTypes1", dp="MCDataBig")),
-                  ("rt_len3_dynamic_types", dict(mode="roundtrip", maxb=3, tp="MCTargets2", sp="MCSenders1", ty="MCTypesDyn", dp="MCData1"))],
+                  ("rt_len3_dynamic_types", dict(mode="roundtrip", maxb=3, tp="MCTargets2", sp="MCSenders1", ty="MCTypesDyn", dp="MCData1")),
+                  ("rt_len3_same_id_senders", dict(mode="roundtrip", maxb=3, tp="MCTargets2", sp="MCSendersD", ty="MCTypes1", dp="MCData1"))],
         "thorough": [("rt_len2_full", dict(mode="roundtrip", maxb=2)),
                      ("rt_len3_collide", dict(mode="roundtrip", maxb=3, sp="MCSendersC", dp="MCData1")),
                      ("rt_len4_small", dict(mode="roundtrip", maxb=4, tp="MCTargetsC", sp="MCSenders1", ty="MCTypes1", dp="MCData1")),
                      ("rt_len3_registered_type", dict(mode="roundtrip", maxb=3, tp="MCTargets2", sp="MCSenders1", ty="MCTypesReg", dp="MCData")),
                      ("rt_len3_big_payloads", dict(mode="roundtrip", maxb=3, tp="MCTargets2", sp="MCSenders1", ty="MCTypes1", dp="MCDataBig")),
-                     ("rt_len3_dynamic_types", dict(mode="roundtrip", maxb=3, tp="MCTargets2", sp="MCSenders1", ty="MCTypesDyn", dp="MCData"))],
+                     ("rt_len3_dynamic_types", dict(mode="roundtrip", maxb=3, tp="MCTargets2", sp="MCSenders1", ty="MCTypesDyn", dp="MCData")),
+                     ("rt_len3_same_id_senders", dict(mode="roundtrip", maxb=3, tp="MCTargets2", sp="MCSendersD", ty="MCTypes1", dp="MCData1"))],
     },
     "C16": {
         "quick": [("hostile_1msg_full", dict(mode="hostile", hidx="HIdxFull", hmax=1)),
